@@ -357,6 +357,7 @@ def run(facts, rep, tier):
         ("Server::handle_document_symbols", "filter(|c0|(c0.ids().len()>1))"): "the note's own first heading is the container, not a symbol inside it; also guards drop_first()",
         ("Server::handle_document_symbols", "filter(|c0|(c0.contains(v?)||c0.contains(v?)))"): "selects the paths that run through this note (its first block or its root)",
         ("liwe::graph::path::graph_to_paths", "filter(|c0|!matchc0{GraphNode::Empty=>true,_=>false})"): "tombstones are not nodes of any note",
+        ("liwe::graph::path::graph_to_paths", "filter(|c0|!c0.is_empty())"): "tombstones are not nodes of any note (GraphNode::is_empty is that match)",
         ("liwe::graph::path::graph_to_paths", "filter(|c0|!P0.node(c0.id()).is_in_list())"): "list items are not headings",
         ("liwe::graph::path::graph_to_paths", "filter(|c0|!c0.ids.is_empty())"): "a node that is not a section yields no path",
         ("liwe::graph::path::graph_to_paths", "filter(|c0|{(P0.get_block_references_to(&P0.node_key(c0.first_id())).is_empty()&&P0.node(c0.first_id()).to_parent().u"): "keeps the paths that start at a root: first heading of a note that no other note includes (C18-R2 / R3 check its parts)",
